@@ -65,6 +65,11 @@ func (fx *FnExec) Run() (obls []*Obligation, err error) {
 				fx.outside = append(fx.outside, fmt.Sprintf("contract has invariants for loop %d but the function has %d loop(s): the clause would not be checked", k, len(fx.loopHead)))
 			}
 		}
+		for k := range fx.C.LoopEntry {
+			if k > len(fx.loopHead) {
+				fx.outside = append(fx.outside, fmt.Sprintf("contract has entry clauses for loop %d but the function has %d loop(s): the clause would not be checked", k, len(fx.loopHead)))
+			}
+		}
 		for k := range fx.C.LoopStep {
 			if k > len(fx.loopHead) {
 				fx.outside = append(fx.outside, fmt.Sprintf("contract has step clauses for loop %d but the function has %d loop(s): the clause would not be checked", k, len(fx.loopHead)))
@@ -571,6 +576,21 @@ func (fx *FnExec) enterLoop(b *ssa.BasicBlock, li *loopInfo, st *blockState) {
 		}
 		o := fx.oblige("inv-entry", t, firstInstr(b), fmt.Sprintf("loop %d invariant #%d holds on entry: %s", li.ordinal, k+1, inv.Text))
 		o.Props = inv.Props
+	}
+	// entry clauses: facts about the state in which the loop is reached (checked here; not assumed, so
+	// that they do not weigh on the queries of the loop body)
+	if fx.C != nil {
+		for k, ec := range fx.C.LoopEntry[li.ordinal] {
+			t, err := fx.evalContract(ec, &evalEnv{fx: fx, heap: st.heap, oldHeap: fx.heap0, loop: b})
+			if err != nil {
+				fx.outside = append(fx.outside, fmt.Sprintf("loop %d entry clause %q: %v", li.ordinal, truncate(ec.Text, 80), err))
+				continue
+			}
+			fx.noAssumeNext = true
+			o := fx.oblige("loop-entry", t, firstInstr(b), fmt.Sprintf("loop %d is reached in a state where (#%d): %s", li.ordinal, k+1, ec.Text))
+			fx.noAssumeNext = false
+			o.Props = ec.Props
+		}
 	}
 	// 2. havoc: phis and modified heaps
 	mods, iterFresh, all := fx.modifiedInLoop(li)
